@@ -654,7 +654,19 @@ fn run_inner(h: &VecHistory, deferred: std::rc::Rc<std::cell::RefCell<Option<Str
         deferred_c06: deferred,
     };
 
+    // bystander objects on the same thread (noise.rs) in a quarter of the longer histories
+    let mut noise: Option<crate::noise::Noise> =
+        if h.ops.len() > 12 && crate::common::hash_of(h) % 4 == 0 { Some(crate::noise::Noise::new()) } else { None };
+    let noise_seed = crate::common::hash_of(h);
+    let mut noise_step = 0u64;
     for op in &h.ops {
+        if let Some(nz) = noise.as_mut() {
+            noise_step += 1;
+            if let Err((tags, what)) = nz.tick(crate::common::mix(noise_seed, noise_step)) {
+                crate::common::note_divergence(tags, &what);
+                return Err(Div { prop: tags, what });
+            }
+        }
         match op {
             HOp::V(vop) => {
                 let Some(obr) = ob.as_mut() else { continue };
